@@ -28,7 +28,7 @@ from .pyfun_tr import FunSpec, T_BOOL, T_INT, T_STR, Unsupported
 
 OUT = os.path.join(gen.GEN_DIR, 'Gen_C05.v')
 SOURCES = ('src/nunavut/jinja/__init__.py, src/nunavut/lang/c/__init__.py, src/nunavut/lang/{c,cpp,py}/templates/*.j2')
-HEAD = gen.HEADER % SOURCES + ('From Coq Require Import List NArith ZArith Bool.\nFrom Verif Require Import Str MetaC05Base.\n'
+HEAD = gen.HEADER % SOURCES + ('From Coq Require Import List NArith ZArith Bool.\nFrom Verif Require Import Str MetaC05Base MetaC05Rne.\n'
                                'Import ListNotations.\nOpen Scope Z_scope.\n\n')
 
 T_OPT_INT = 'option Z'
@@ -51,6 +51,7 @@ class Tr5(pyfun_tr.Tr):
         self.partial = partial
         self.enum = enum or {}
         self.oracle = oracle
+        self.exact_helper = False
 
     def expr(self, e, env):
         # enumeration member `self` (modelled by its value): self.value, self.to_*(...)
@@ -143,6 +144,11 @@ class Tr5(pyfun_tr.Tr):
                 if tv != T_FRAC:
                     raise Unsupported('repr(float()) of %s' % tv)
                 return '(repr_float %s)' % v, T_STR          # oracle: shortest round-trip decimal of the correctly rounded value
+            if (isinstance(f, ast.Name) and f.id == '_is_exact_double' and len(e.args) == 1 and not e.keywords and self.exact_helper):
+                v, tv = self.expr(e.args[0], env)
+                if tv != T_INT:
+                    raise Unsupported('_is_exact_double of %s' % tv)
+                return '(exact64 %s)' % v, T_BOOL       # shape-pinned helper: int(float(x)) == x, OverflowError -> False
             if (isinstance(f, ast.Name) and f.id == '_float_division_expr' and len(e.args) == 1 and not e.keywords and self.oracle):
                 v, tv = self.expr(e.args[0], env)
                 if tv != T_FRAC:
@@ -249,9 +255,10 @@ class Tr5(pyfun_tr.Tr):
 
 def translate(fn: ast.FunctionDef, coq_name: str, params: typing.List[typing.Tuple[str, str]], ret: str, partial: bool,
               enum: typing.Optional[typing.Dict[str, int]] = None, body: typing.Optional[typing.List[ast.stmt]] = None,
-              skip_params: typing.Sequence[str] = ('self', 'cls'), oracle: bool = False) -> str:
+              skip_params: typing.Sequence[str] = ('self', 'cls'), oracle: bool = False, exact_helper: bool = False) -> str:
     spec = FunSpec(cls=None, name=fn.name, coq_name=coq_name, params=dict(params), ret=ret)
     tr = Tr5(pyfun_tr.Ctx(spec, None), partial, enum, oracle)
+    tr.exact_helper = exact_helper
     env = {n: (n, t) for n, t in params}
     if body is None:
         args = [a.arg for a in fn.args.args if a.arg not in skip_params]
@@ -712,7 +719,20 @@ def gen_c05() -> typing.Tuple[bool, str]:
             raise Unsupported('filter_literal: FloatType branch has an unexpected shape')
         fd = pyfun_tr.find_function(cc, None, '_float_division_expr')
         _decorators_ok(fd, ())
-        parts.append(translate(fd, 'float_division_expr', [('value', T_FRAC)], T_STR, False, oracle=True))
+        # the rule that selects the division form: operands below 2**1023 (before the repair of F-FLOAT-OPERAND-ROUNDING) or operands
+        # exactly representable as doubles (helper _is_exact_double, pinned: `int(float(x)) == x`, OverflowError -> False)
+        exact_helper = any(isinstance(x, ast.FunctionDef) and x.name == '_is_exact_double' for x in cc.body)
+        if exact_helper:
+            fh = pyfun_tr.find_function(cc, None, '_is_exact_double')
+            _decorators_ok(fh, ())
+            hb = [x for x in fh.body if not (isinstance(x, ast.Expr) and isinstance(x.value, ast.Constant))]
+            if [a.arg for a in fh.args.args] != ['x'] or len(hb) != 1 or ast.unparse(hb[0]) != (
+                    'try:\n    return int(float(x)) == x\nexcept OverflowError:\n    return False'):
+                raise Unsupported('_is_exact_double has an unexpected shape')
+        parts.append('Definition float_rule : frule := %s.' % ('DivIfExactOperands' if exact_helper else 'DivIfBelowLimit'))
+        parts.append(translate(fd, 'float_division_expr', [('value', T_FRAC)], T_STR, False, oracle=True, exact_helper=exact_helper))
+        if exact_helper != ('exact64' in parts[-1]) or (not exact_helper and 'Z.pow (2)%Z (1023)%Z' not in parts[-1]):
+            raise Unsupported('_float_division_expr: the division rule is neither the 2**1023 limit nor _is_exact_double on both operands')
         ret_expr = ast.parse('return expr').body
         parts.append(translate(fn, 'filter_literal_float_expr', [('value', T_FRAC)], T_STR, False, body=[float_body[0]] + ret_expr,
                                oracle=True))
